@@ -108,7 +108,9 @@ pub fn maybe_add_change_output(
 /// Estimate the feerate for an HTLC transaction
 pub(crate) fn estimate_feerate_per_kw(total_fee: u64, weight: u64) -> u32 {
     // we want the highest feerate that can give rise to this total fee
-    (((total_fee * 1000) + 999) / weight) as u32
+    let feerate = ((total_fee as u128 * 1000) + 999) / weight as u128;
+    // saturate instead of truncating, so that a huge fee cannot wrap into the allowed range
+    u32::try_from(feerate).unwrap_or(u32::MAX)
 }
 
 pub(crate) fn add_holder_sig(
